@@ -23,3 +23,14 @@ PROPS['C02'] = {
 NOT_APPLICABLE = {
     'C12': 'decided by rustc\'s trait solver and borrow checker over whole programs; bounded symbolic execution of function bodies cannot decide "this program does not type-check" and an SMT encoding of trait resolution/NLL is out of reach (a compile-fail corpus would be a different technique family).',
 }
+
+PROPS['C06'] = {
+    'kani': {
+        'quick': [krun(['c06::q::'], timeout=600, bounds='N in 0..=5: every (front, back) position symbolic, one symbolically chosen operation out of 12 with an unconstrained usize argument; 4-operation sequence on N=3; Debug on N in {0,2}')],
+        'thorough': [krun(['c06::'], timeout=1800, bounds='N in 0..=8 inductive step; 4-operation sequences on N in 0..=4; Debug N in 0..=3')],
+    },
+    'functions': ['GenericArrayIter::{next,next_back,nth,nth_back,len,size_hint,as_slice,as_mut_slice,clone,fold,rfold,count,last,fmt}', 'GenericArray::into_iter'],
+    'bounds': 'K: N <= 5 (thorough 8); position (f,b) symbolic over all (N+1)(N+2)/2 reachable positions; nth/nth_back argument any usize.',
+    'outside': ['N > 8 in K (M decides the index arithmetic of the loop-free methods for all 64-bit N)', '{:#?} alternate Debug (delegation shown by M)'],
+    'assumptions': ['f + b <= N (reachable positions)'],
+}
